@@ -24,7 +24,7 @@ FUNCTIONS = ['prover.z3wrapper:convert/convert_type/convert_const/norm_term/solv
              'prover.sympywrapper:convert/solve_goal/solve_with_interval/SymPyMacro.eval']
 ASSUMPTIONS = [
     'goal family: quantifier wrappers (forall/exists, negated, as hypothesis, nested) x bodies over nat/int/real/type-variable/bool; arithmetic with nat subtraction, division, max/min/abs, IF, of_nat; '
-    'function and set equalities; interval-membership premises',
+    'function and set equalities; interval-membership premises; one variable name at two types in different parts of a goal; goals z3 leaves undecided (recurrence / monotonicity / additivity / involution premises over f : nat=>nat, int=>int)',
     'a disagreement is reported only with a confirmed counter-model (independent evaluator, finite model, or cvc5 agreeing with z3); otherwise it is counted inconclusive',
     'SymPy: polynomial/rational goals in x (and y) with numerals in [-2,3], closed/open interval premises; SymPy itself is a black box',
     'z3wrapper.check_z3 must be True',
@@ -38,6 +38,8 @@ BUDGET_S = {'quick': 240, 'thorough': 900}
 
 def bounds(tier):
     return {'z3_goals': 'all templates (see goal_family) ' + ('' if tier == 'thorough' else '; depth-2 propositional combinations sampled 1500'),
+            'z3_undecided_goals': '%d goals with a quantified premise over an uninterpreted f (6 premises x 7 conclusions x nat/int%s); invalid ones refuted by instantiating f with one of 8 concrete functions' % (
+                (168, ', as implication and as sequent') if tier == 'thorough' else (42, ', every second one')),
             'sympy_goals': '%d seeded + fixed list + systematic interval end-point family (3 intervals x closed/open x 5 relations x 21 polynomials) + ground nat/int subtraction goals' % (600 if tier == 'quick' else 6000)}
 
 
@@ -156,7 +158,48 @@ def z3_goals():
                 out.append((L + ' -->~', [], Implies(q1, Not(q2))))
                 out.append((L + ' &|-false', [], Implies(And(q1, q2), false)))
                 out.append((L + ' -->', [], Implies(q1, q2)))
+    # one name at two types, in different parts of the goal (assumption / conclusion are translated separately)
+    xi, xn, xr2, yn = Var('x', IntType), Var('x', NatType), Var('x', RealType), Var('y', NatType)
+    Mn = lambda ty: Const('min', TFun(ty, ty, ty))
+    clash = [('int min / nat sub', Not(Eq(Mn(IntType)(xi, Number(IntType, 0)), Number(IntType, 0))), Not(xn - yn >= Number(NatType, 0))),
+             ('int x<0 / nat x>=0', xi < Number(IntType, 0), Not(xn >= Number(NatType, 0))),
+             ('nat x>=0 / int x>=0', xn >= Number(NatType, 0), xi >= Number(IntType, 0)),
+             ('real 2x=1 / int', Eq(Number(RealType, 2) * xr2, Number(RealType, 1)), Not(Eq(xi, xi))),
+             ('nat x-1+1=x / int x>0', Eq(xn - Number(NatType, 1) + Number(NatType, 1), xn), xi > Number(IntType, 0))]
+    for lab, A, C in clash:
+        out.append(('clash ' + lab + ' imp', [], Implies(A, C)))
+        out.append(('clash ' + lab + ' hyp', [A], C))
+        out.append(('clash ' + lab + ' imp2', [], Implies(A, Implies(Eq(yn, yn), C))))
+        out.append(('clash ' + lab + ' conj', [], Implies(And(A, Not(C)), false)))
     _G['z3'] = out
+    return out
+
+
+def z3u_goals(tier='quick'):
+    """Goals z3 typically cannot decide (quantified premises over an uninterpreted function with arithmetic): the bridge must
+    treat `unknown` as "not solved".  Invalid members are refuted by instantiating f with a concrete function (holsmt templates)."""
+    key = 'z3u-' + tier
+    if key in _G:
+        return _G[key]
+    from kernel.type import NatType, IntType, TFun
+    from kernel.term import Var, Eq, Implies, Forall, Exists, Number
+    out = []
+    for ty, tn in ((NatType, 'nat'), (IntType, 'int')):
+        f = Var('f', TFun(ty, ty))
+        x, y = Var('x', ty), Var('y', ty)
+        N = lambda k: Number(ty, k)
+        prem = [('rec+1', Forall(x, Eq(f(x + N(1)), f(x) + N(1)))), ('rec+2', Forall(x, Eq(f(x + N(1)), f(x) + N(2)))), ('mono', Forall(x, f(x + N(1)) > f(x))),
+                ('wmono', Forall(x, f(x) <= f(x + N(1)))), ('additive', Forall(x, Forall(y, Eq(f(x + y), f(x) + f(y))))), ('involution', Forall(x, Eq(f(f(x)), x)))]
+        concl = [('f0=0', Eq(f(N(0)), N(0))), ('f1=1', Eq(f(N(1)), N(1))), ('f2=f0+2', Eq(f(N(2)), f(N(0)) + N(2))), ('f1<=f0', f(N(1)) <= f(N(0))), ('f0>0', f(N(0)) > N(0)),
+                 ('f0<f2', f(N(0)) < f(N(2))), ('ex x. f x=0', Exists(x, Eq(f(x), N(0))))]
+        for pl, p in prem:
+            for cl, c in concl:
+                out.append(('undecided %s: %s --> %s' % (tn, pl, cl), [], Implies(p, c)))
+                if tier == 'thorough':
+                    out.append(('undecided %s: %s |- %s' % (tn, pl, cl), [p], c))
+    if tier == 'quick':
+        out = out[::2]
+    _G[key] = out
     return out
 
 
@@ -352,6 +395,8 @@ def units(tier, seed):
     k = 1500 if tier == 'quick' else 12000
     for lo in range(0, k, 100):
         us.append(('z3c', seed, lo, 100))
+    for lo in range(0, len(z3u_goals(tier)), 3):
+        us.append(('z3u', tier, lo, lo + 3))
     k = 600 if tier == 'quick' else 6000
     for lo in range(0, k, 50):
         us.append(('sympy', seed, lo, 50))
@@ -371,6 +416,12 @@ def run_unit(u):
             lab, hyps, goal = gs[i]
             check_z3_goal(lab, hyps, goal, out, {'part': 'z3', 'index': i})
         out['samples'].append({'z3_goal': str(gs[u[1]][2]), 'label': gs[u[1]][0]})
+    elif u[0] == 'z3u':
+        gs = z3u_goals(u[1])
+        for i in range(u[2], min(u[3], len(gs))):
+            lab, hyps, goal = gs[i]
+            check_z3_goal(lab, hyps, goal, out, {'part': 'z3u', 'tier': u[1], 'index': i})
+        out['samples'].append({'z3_goal': str(gs[u[2]][2]), 'label': gs[u[2]][0]})
     elif u[0] == 'z3c':
         _, seed, lo, n = u
         rnd = random.Random('c06c-%s-%s' % (seed, lo))
@@ -429,6 +480,8 @@ def replay(c):
         return not (z3wrapper.check_z3 is True and z3wrapper.z3_loaded), c['detail']
     if part == 'z3':
         lab, hyps, goal = z3_goals()[c['index']]
+    elif part == 'z3u':
+        lab, hyps, goal = z3u_goals(c['tier'])[c['index']]
     elif part == 'z3c':
         rnd = random.Random('c06c-%s-%s' % (c['seed'], c['lo']))
         lab, hyps, goal = prop_combos(rnd, c['n'])[c['j']]
